@@ -56,6 +56,7 @@ PLAN = {
             H("c01_scopes_nested5", "as c01_scopes_nested with <= 5 steps", kind="bounded", bound=BOUND5, covers=3, timeout=3000, tier="thorough"),
             H("c01_guard_new", "LocalRecorderGuard::new(r) ensures LOCAL == Some(r) and guard.prev_recorder == old(LOCAL), for LOCAL in {None, A, B}; nothing emitted", covers=2),
             H("c01_guard_drop", "Drop ensures LOCAL == old(self.prev_recorder) for every (prev, LOCAL) in {None,A,B} x {None,A,B,C}", covers=2),
+            H("c01_guard_drop_unwinding", "the same Drop contract with std::thread::panicking() stubbed to true: the restore does not depend on whether the scope ends by a panic", covers=2, replay=False),
             H("c01_set_default_local_recorder", "guard alive: LOCAL == r and each emission reaches r once; after drop: LOCAL == old(LOCAL) and emissions reach the previous recorder"),
             H("c01_with_local_recorder", "closure runs exactly once with LOCAL == r, its value is returned, LOCAL restored on normal exit"),
             H("c01_with_recorder_precedence", "with_recorder: closure invoked exactly once on local > global > NOOP_RECORDER (identity of the receiving recorder), result passed through", covers=3),
@@ -63,6 +64,7 @@ PLAN = {
             H("c01_macro_key_expr", "key_var!(expr): computed &'static str and owned String names", module=M, args=UNW),
             H("c01_macro_key_literal_labels", "key_var!(literal, k => v literal pairs): labels in spelled order, trailing comma", module=M, args=UNW),
             H("c01_macro_key_expr_static_labels", "key_var!(expr, literal pairs)", module=M, args=UNW),
+            H("c01_macro_callsite_twice", "one call site executed twice with different computed names (with and without literal labels) delivers each time the name of THAT execution", module=M, args=UNW, timeout=1500),
             H("c01_macro_key_expr_labels", "key_var!(expr, expr => expr pairs): constant / variable label parts", module=M, args=UNW),
             H("c01_macro_key_label_collection", "key_var!(expr, labels): Vec<Label>", module=M, args=UNW),
             H("c01_macro_key_label_slice", "key_var!(expr, labels): &[(k, v)] (one pair)", module=M, args=UNW),
